@@ -258,7 +258,12 @@ def main_check(prop, tier, seed, runs_override=None, workers=None):
         path = kernel.write_replay(prop, v.klass, v.detail, v.payload, seed, {"occurrences_in_batch": len(vs), "tags": v.tags, "minimised": True})
         ok, outp = confirm_in_fresh_interpreter(prop, path, klass)
         if not ok:
-            raise HarnessError(f"minimised replay {path} did not reproduce class {klass!r} in a fresh interpreter:\n{outp}")
+            # reproduces in this (used) process but not in a fresh one: it depends on state left behind by earlier runs
+            irreproducible.append((klass, ["not reproduced in a fresh interpreter"]))
+            families.discard(fam)
+            print(f"HARNESS-NOTE: minimised replay {path} did not reproduce class {klass!r} in a fresh interpreter; not reported\n"
+                  f"{outp[-600:]}", file=sys.stderr)
+            continue
         print(f"VIOLATION property={prop} replay={path}")
         print(f"  class={klass}\n  detail={v.detail}")
         reported.append({"class": klass, "replay": path, "occurrences": len(vs), "minimised": True})
